@@ -137,7 +137,7 @@ let judge_float op args got =
   | "wr_wp" -> fail "handled-elsewhere"
   | "wp2" ->
       (* two single roundings, the second of the rounded value; for the directed modes the value must also be the
-         single rounding of the original (C10_directed_digits_twice), for the nearest modes it may differ *)
+         single rounding of the original (C10_with_precision_twice_directed_eq), for the nearest modes it may differ *)
       let np1 = z (List.nth args 5) and np2 = z (List.nth args 6) in
       let a1 = norm_approx b (with_precision_spec b m s e np1) in
       let a2 = norm_approx b (with_precision_spec b m (asig a1) (aexp a1) np2) in
